@@ -2,7 +2,7 @@
 //   * closest() against the construction it must invert: P = forward(lat, lon, h) with h above the documented principal
 //     bound has distance |h| from the ellipsoid and is inside iff h < 0 (oblate, prolate, extreme eccentricities, heights
 //     from nanometres to 1e300);
-//   * closest() against a brute-force scan with 2^21 points of the squared distance (points inside the evolute, where
+//   * closest() against an independent derivative-free search (scan of the distance + ternary search) (points inside the evolute, where
 //     several local minima compete);
 //   * forward()/enu(): orthonormality, finite-difference tangents (east = dP/dlon, north = dP/dlat, up = dP/dh), exact
 //     degree reduction.
@@ -24,13 +24,13 @@ int main() {
   for (auto ef : efs) {
     cart::Ell E = cart::ell(ef.a, ef.f);
     for (double lat : {-90.0, -89.999999, -45.0, -1e-9, 0.0, 1e-300, 30.0, 60.0, 89.9999999, 90.0}) {
-      Q hm = cart::hmin(E, lat);
-      // for e^2 > 1/2 the evolute pokes outside near the poles: restrict negative heights to above the centre of curvature
-      // of the meridian as well (rho = a (1-e^2)/w^(3/2)); both bounds are needed for (lat,h) to be the nearest-point inverse
+      // (lat, h) is the nearest-point inverse of P as long as P lies before the equatorial plane (oblate: h > -(1-e^2) nu, the
+      // documented bound), before the axis (prolate: h > -nu) and before the centre of curvature of the meridian (h > -rho)
       Q sp, cp; cart::sincosd(lat, sp, cp);
       Q w = E.e2 > 0 ? E.e2m + E.e2 * cp * cp : 1 - E.e2 * sp * sp;
       Q rho = E.a * E.e2m / (w * sqrtq(w)), nu = E.a / sqrtq(w);
-      Q lim = rho < nu ? rho : nu;
+      Q lim = rho < nu ? rho : nu; if (E.e2m * nu < lim) lim = E.e2m * nu;
+      if (E.e2 >= 0) cmpabs("documented bound", -cart::hmin(E, lat), lim, 1e-30Q * E.a);
       for (double hs : {-0.999, -0.5, -1e-3, -1e-12, 0.0, 1e-15, 1e-9, 1e-3, 1.0, 1e4, 1e14, 1e294}) {
         Q h = hs < 0 ? (Q)hs * lim : (Q)hs * E.a;
         Q X, Y, Z; cart::forward(E, lat, 37.5, h, X, Y, Z);
@@ -47,12 +47,21 @@ int main() {
       Q R = fabsq(Rc) * (Q)rr, Z = fabsq(Zc) * (Q)zz;
       if (E.e2 == 0) { R = E.a * (Q)rr / 2; Z = E.a * (Q)zz / 2; }
       cart::Closest c = cart::closest(E, R, Z);
-      Q best = HUGE_VALQ; const int N = 1 << 21;
-      for (int i = 0; i <= N; ++i) { Q b = -M_PIq / 2 + M_PIq * i / N, sb, cb; sincosq(b, &sb, &cb); Q d = hypotq(E.a * cb - R, E.b * sb - Z); if (d < best) best = d; }
+      // independent search: coarse scan of the distance itself, then ternary search around the best sample and around every
+      // other sampled local minimum (no derivatives)
+      auto dist = [&](Q b) { Q sb, cb; sincosq(b, &sb, &cb); return hypotq(E.a * cb - R, E.b * sb - Z); };
+      const int N = 1 << 13; std::vector<Q> d(N + 1);
+      for (int i = 0; i <= N; ++i) d[i] = dist(-M_PIq / 2 + M_PIq * i / N);
+      Q best = HUGE_VALQ;
+      for (int i = 0; i <= N; ++i) {
+        if (!((i == 0 || d[i] <= d[i - 1]) && (i == N || d[i] <= d[i + 1]))) continue;
+        Q lo = -M_PIq / 2 + M_PIq * (i > 0 ? i - 1 : 0) / N, hi = -M_PIq / 2 + M_PIq * (i < N ? i + 1 : N) / N;
+        for (int it = 0; it < 300; ++it) { Q m1 = lo + (hi - lo) / 3, m2 = hi - (hi - lo) / 3; if (dist(m1) <= dist(m2)) hi = m2; else lo = m1; }
+        Q v = dist((lo + hi) / 2); if (v < best) best = v;
+      }
       snprintf(nm, sizeof nm, "brute a=%g f=%g R=%g*cusp Z=%g*cusp", ef.a, ef.f, rr, zz);
-      // the brute-force value is an upper bound within (spacing)^2 * curvature of the true minimum
-      if (c.dist > best * (1 + 1e-30Q)) { ++bad; printf("FAIL %s: closest %s > brute %s\n", nm, str(c.dist).c_str(), str(best).c_str()); }
-      cmpabs(nm, c.dist, best, 1e-11Q * E.a + 1e-11Q * best);
+      // ternary search on a flat minimum resolves the abscissa only to sqrt(eps): the VALUE is good to ~1e-30 relative
+      cmpabs(nm, c.dist, best, 1e-26Q * (E.a + best));
     }
   }
   // forward / enu
@@ -68,7 +77,7 @@ int main() {
     cart::forward(E, lat + dl, lon, h, P1[0], P1[1], P1[2]);
     for (int k = 0; k < 3; ++k) cmpabs("north", (P1[k] - P0[k]) / (dl * M_PIq / 180 * (rho + h)), M[3 * k + 1], 1e-7Q);
     cart::forward(E, lat, lon, h + 1, P1[0], P1[1], P1[2]);
-    for (int k = 0; k < 3; ++k) cmpabs("up", P1[k] - P0[k], M[3 * k + 2], 1e-30Q);
+    for (int k = 0; k < 3; ++k) cmpabs("up", P1[k] - P0[k], M[3 * k + 2], 1e-26Q);
     Q X, Y, Z; cart::forward(E, 90, 720.5, 0, X, Y, Z);
     cmpabs("pole X", X, 0, 0); cmpabs("pole Z", Z, E.b, 1e-26Q);
     cart::forward(E, 0, 180, 0, X, Y, Z); cmpabs("X at lon 180", X, -E.a, 0); cmpabs("Y at lon 180", Y, 0, 0);
